@@ -563,6 +563,7 @@ class _Inliner(object):
     """scope = list of ('class'|'func', name) from the module down to the statement being rewritten."""
 
     def __init__(self, tree, modname, defs, new_defs):
+        self.ref = reference().get(modname) or set()
         self.tree = tree
         self.modname = modname
         self.defs = defs  # qualified name -> def node (all defs)
@@ -689,6 +690,20 @@ class _Inliner(object):
         me = self._qual(scope)
         if me == q or me.startswith(q + "."):
             return None  # recursion
+        if any(isinstance(c_, ast.Call) and ((isinstance(c_.func, ast.Name) and c_.func.id == fn.name) or (
+                isinstance(c_.func, ast.Attribute) and c_.func.attr == fn.name)) for c_ in ast.walk(fn)):
+            return None  # a helper that calls itself stays a function wherever it is called from
+        # closures lifted out of a reference function: when the function we are in has lost nested functions it has in the
+        # reference tree, the new helpers it calls are those closures under another roof - they stay functions (the rules
+        # find them by what they do), they are not dissolved into their caller
+        for i_ in range(len(scope), 0, -1):
+            if scope[i_ - 1][0] == "func":
+                outer = self._qual(scope[:i_])
+                had = {r_ for r_ in self.ref if r_.startswith(outer + ".") and "." not in r_[len(outer) + 1:]}
+                have = {d_ for d_ in self.defs if d_.startswith(outer + ".") and "." not in d_[len(outer) + 1:]}
+                if outer in self.ref and had - have:
+                    return None
+                break
         kind = _decorator_kind(fn)
         if kind is None or isinstance(fn, ast.AsyncFunctionDef):
             return None
@@ -1087,6 +1102,145 @@ def inline_callable_aliases(tree):
             if not fn.body:
                 fn.body.append(ast.Pass())
             log.append("callable alias %s = %s replaced at its %d call sites in %s" % (name, ast.unparse(st.value), len(loads), fn.name))
+    if log:
+        ast.fix_missing_locations(tree)
+    return log
+
+
+# ------------------------------------------------------------------ callbacks that only pass their argument on
+def eta_reduce_callbacks(tree):
+    """`def cb(x): return self.m(x, a, b)` nested in F and used only as a Deferred callback (`d.addCallback(cb)`,
+    `d.addCallbacks(cb, eb)`): the registration becomes `d.addCallback(self.m, a, b)` /
+    `d.addCallbacks(self.m, ..., callbackArgs=(a, b), ...)` and the closure goes.  `a`, `b` are names bound exactly once in
+    F (so binding them at registration time or reading them when the callback runs is the same)."""
+    log = []
+    for fn in [n for n in ast.walk(tree) if isinstance(n, FUNC)]:
+        stores = {}
+        for n in ast.walk(fn):
+            if isinstance(n, ast.Name) and isinstance(n.ctx, (ast.Store, ast.Del)):
+                stores[n.id] = stores.get(n.id, 0) + 1
+            elif isinstance(n, ast.arg):
+                stores[n.arg] = stores.get(n.arg, 0) + 1
+        cands = {}
+        for g in [x for x in fn.body if isinstance(x, ast.FunctionDef)] + [x for b in ast.walk(fn) if isinstance(b, (ast.If, ast.With, ast.Try)) for x in getattr(b, "body", []) if isinstance(x, ast.FunctionDef)]:
+            if g.decorator_list or g.args.vararg or g.args.kwarg or g.args.kwonlyargs or g.args.defaults or len(g.args.args) != 1:
+                continue
+            body = g.body
+            if body and isinstance(body[0], ast.Expr) and isinstance(body[0].value, ast.Constant) and isinstance(body[0].value.value, str):
+                body = body[1:]
+            if len(body) != 1 or not isinstance(body[0], ast.Return) or not isinstance(body[0].value, ast.Call):
+                continue
+            call = body[0].value
+            p = g.args.args[0].arg
+            if call.keywords or not call.args or not (isinstance(call.args[0], ast.Name) and call.args[0].id == p):
+                continue
+            if not _pure_arg(call.func) or any(isinstance(x, ast.Name) and x.id in (p, g.name) for x in ast.walk(call.func)):
+                continue
+            extra = call.args[1:]
+            if not all(isinstance(a, ast.Constant) or (isinstance(a, ast.Name) and a.id != p and stores.get(a.id, 0) == 1) for a in extra):
+                continue
+            cands[g.name] = (g, call.func, extra)
+        if not cands:
+            continue
+        # every reference of the closure is a handler position of a registration without further arguments
+        ok_names = set(cands)
+        handler_ids = {}
+        for c in ast.walk(fn):
+            if isinstance(c, ast.Call) and isinstance(c.func, ast.Attribute) and c.func.attr in _REG:
+                if c.func.attr == "addCallbacks":
+                    pos = [a for a in c.args[:2]]
+                    clean = len(c.args) <= 2 and not [k for k in c.keywords if k.arg in ("callbackArgs", "errbackArgs", "callbackKeywords", "errbackKeywords")]
+                else:
+                    pos = c.args[:1]
+                    clean = len(c.args) == 1 and not c.keywords
+                for a in pos:
+                    if isinstance(a, ast.Name) and a.id in cands:
+                        if clean:
+                            handler_ids[id(a)] = c
+                        else:
+                            ok_names.discard(a.id)
+        for n in ast.walk(fn):
+            if isinstance(n, ast.Name) and n.id in cands and isinstance(n.ctx, ast.Load) and id(n) not in handler_ids:
+                ok_names.discard(n.id)
+        for c in {id(v): v for v in handler_ids.values()}.values():
+            names_here = [a.id for a in (c.args[:2] if c.func.attr == "addCallbacks" else c.args[:1]) if isinstance(a, ast.Name) and a.id in ok_names]
+            if not names_here:
+                continue
+            if c.func.attr == "addCallbacks":
+                for idx, kw in ((0, "callbackArgs"), (1, "errbackArgs")):
+                    if idx < len(c.args) and isinstance(c.args[idx], ast.Name) and c.args[idx].id in ok_names:
+                        g, func_, extra = cands[c.args[idx].id]
+                        c.args[idx] = copy.deepcopy(func_)
+                        if extra:
+                            c.keywords.append(ast.keyword(arg=kw, value=ast.Tuple(elts=[copy.deepcopy(a) for a in extra], ctx=ast.Load())))
+            else:
+                g, func_, extra = cands[c.args[0].id]
+                c.args = [copy.deepcopy(func_)] + [copy.deepcopy(a) for a in extra]
+            log.append("callback closure(s) %s replaced by the function they pass their argument to at line %d" % (", ".join(names_here), getattr(c, "lineno", 0)))
+        for name in ok_names:
+            g = cands[name][0]
+            for owner in ast.walk(fn):
+                for field in ("body", "orelse", "finalbody"):
+                    blk = getattr(owner, field, None)
+                    if isinstance(blk, list) and g in blk:
+                        blk.remove(g)
+                        if not blk:
+                            blk.append(ast.Pass())
+    if log:
+        ast.fix_missing_locations(tree)
+    return log
+
+
+# ------------------------------------------------------------------ parallel assignment
+def split_tuple_assignments(tree):
+    """`a, b = E1, E2`  ->  `a = E1; b = E2` when no target is read by any right-hand side (so the order of the stores
+    cannot matter): plain names on the left with anything on the right, or attribute targets with side-effect-free
+    right-hand sides that do not mention them.  Rules then see one definition per statement."""
+    log = []
+
+    def split(st):
+        if not (isinstance(st, ast.Assign) and len(st.targets) == 1 and isinstance(st.targets[0], (ast.Tuple, ast.List)) and isinstance(
+                st.value, (ast.Tuple, ast.List)) and len(st.targets[0].elts) == len(st.value.elts) and len(st.value.elts) >= 2):
+            return None
+        tg, vals = st.targets[0].elts, st.value.elts
+        if any(isinstance(x, ast.Starred) for x in list(tg) + list(vals)):
+            return None
+        names = set()
+        chains = set()
+        for t in tg:
+            if isinstance(t, ast.Name):
+                names.add(t.id)
+            elif isinstance(t, ast.Attribute) and _pure_arg(t.value):
+                chains.add(ast.unparse(t))
+            else:
+                return None
+        if len(names) + len(chains) != len(tg):
+            return None
+        for v in vals:
+            if {x.id for x in ast.walk(v) if isinstance(x, ast.Name)} & names:
+                return None
+            if chains and (not _pure_arg(v) or any(ast.unparse(x) in chains for x in ast.walk(v) if isinstance(x, ast.Attribute))):
+                return None
+        out = []
+        for t, v in zip(tg, vals):
+            out.append(ast.copy_location(ast.Assign(targets=[t], value=v, lineno=st.lineno), st))
+        log.append("parallel assignment at line %d split into %d statements" % (getattr(st, "lineno", 0), len(out)))
+        return out
+
+    def block(stmts):
+        res = []
+        for st in stmts:
+            for field in ("body", "orelse", "finalbody"):
+                sub = getattr(st, field, None)
+                if isinstance(sub, list) and sub and isinstance(sub[0], ast.stmt):
+                    setattr(st, field, block(sub))
+            for h in getattr(st, "handlers", []) or []:
+                h.body = block(h.body)
+            r_ = split(st)
+            res.extend(r_ if r_ else [st])
+        return res
+
+    tree.body = block(tree.body)
     if log:
         ast.fix_missing_locations(tree)
     return log
